@@ -676,7 +676,8 @@ def c08(tier, seed):
 @check("C09")
 def c09(tier, seed):
     t0 = time.time(); prop = "C09"
-    cases = mt_cases(prop, "exit", tier, seed)
+    # 2 000 random schedules (not 1 200): the double-adoption race of seeded change C02-r2-1 shows in about 2 of 1 200 of them, so a quick run with 1 200 missed it at one seed in eight
+    cases = mt_cases(prop, "exit", tier, seed, n_baton=tier_n(tier, 2000, 60000))
     v = Verdict(prop)
     for c in core.run_cases(cases): v.add(c)
     # tiny programs with enumerated preemptions: a thread hands its blocks to 2-3 others and terminates; they free them (each trying to adopt the abandoned segment under
